@@ -66,6 +66,14 @@ func (x *Exec) call(fr *Frame, st *State, ci ssa.CallInstruction) []string {
 	}
 	// call-site contracts (checked in the caller, whoever the callee is)
 	x.checkCallsites(fr, st, ci, key, fn, args, argTypes)
+	// a call through a local function variable can be named "var:<name>" in a call-site contract
+	if !c.IsInvoke() {
+		if u, ok := c.Value.(*ssa.UnOp); ok {
+			if a, ok := u.X.(*ssa.Alloc); ok && a.Comment != "" {
+				x.checkCallsites(fr, st, ci, "var:"+a.Comment, nil, args, argTypes)
+			}
+		}
+	}
 
 	if r, handled := x.specialCall(fr, st, ci, key, fn, args); handled {
 		return r
@@ -269,7 +277,11 @@ func (x *Exec) callByContract(fr *Frame, st *State, ci ssa.CallInstruction, fc *
 	rts := x.resultTypes(sig)
 	res := make([]string, len(rts))
 	for i, rt := range rts {
-		res[i] = x.freshOfType(st, "res_"+lastName(fc.Key), rt)
+		if i == 0 && fc.Fresh && x.vc.sortOf(rt) == "Ptr" {
+			res[i] = x.newObj() // the contract says the result is a new object
+		} else {
+			res[i] = x.freshOfType(st, "res_"+lastName(fc.Key), rt)
+		}
 		name := fmt.Sprintf("result%d", i)
 		if i < len(fc.Results) {
 			name = fc.Results[i]
@@ -280,11 +292,6 @@ func (x *Exec) callByContract(fr *Frame, st *State, ci ssa.CallInstruction, fc *
 		if len(rts) == 1 {
 			env.names["result"] = specVal{term: res[i], typ: rt}
 		}
-	}
-	if fc.Fresh && len(res) > 0 && x.vc.sortOf(rts[0]) == "Ptr" {
-		// a fresh object: model as a new allocation
-		p := x.newObj()
-		x.vc.assert(eq(res[0], p))
 	}
 	env.st = st
 	for _, e := range fc.Ensures {
